@@ -390,7 +390,10 @@ impl QosPolicies {
     // check Ownership:
     // offered kind == requested kind
     if let (Some(off), Some(req)) = (self.ownership, other.ownership) {
-      if off != req {
+      // Only the ownership kind (Shared / Exclusive) takes part in matching.
+      // The strength of an Exclusive writer is used for arbitration between
+      // writers, and a reader does not even have one.
+      if std::mem::discriminant(&off) != std::mem::discriminant(&req) {
         return Some(QosPolicyId::Ownership);
       }
     }
